@@ -16,6 +16,12 @@ mod service;
 
 pub(in crate::server) use server::CloudServer;
 
+#[cfg(gothenburgbitfactory_taskchampion_verif)]
+pub(in crate::server) use {
+    iter::AsyncObjectIterator,
+    service::{ObjectInfo, Service},
+};
+
 #[cfg(feature = "server-gcp")]
 pub(in crate::server) mod gcp;
 
